@@ -67,12 +67,8 @@ def classify(wos, ops, steps, immediate):
 
 def signature(code, mode, immediate, ops, steps):
     if code & 2:
-        kinds = []
-        if any(e[0] == 'Callback' for _, effs, _ in steps for e in effs) or any(o[0] == 'ack' for o in ops):
-            kinds.append('callback')
-        if any(o[0] in ('enter', 'leave', 'close_room', 'disconnect') for o in ops):
-            kinds.append('rooms')
-        return 'c07-%s-%s-%s' % ('immediate' if immediate else 'delayed', mode, '+'.join(kinds) or 'emit')
+        parts = [name for bit, name in ((4, 'deliveries'), (8, 'callbacks'), (16, 'membership')) if code & bit]
+        return 'c07-%s-%s-%s' % ('immediate' if immediate else 'delayed', mode, '+'.join(parts) or 'property')
     return 'c07-%s-correspondence' % mode
 
 
@@ -150,8 +146,11 @@ def batch(chk, name, rng, n, knobs_list, modes=('sync', 'async')):
 def knob_sets(thorough):
     K = cluster_hist.Knobs
     n_ops = 26 if thorough else 20
+    cbw = {'connect': 1.0, 'enter': 1.0, 'leave': 0.5, 'close_room': 0.3, 'emit': 1.5, 'emit_cb': 6.0,
+           'ack': 7.0, 'disconnect': 0.8, 'consume': 0.0}
     return [K(n_ops=n_ops), K(n_ops=n_ops, delayed=True),
-            K(n_ops=n_ops, strict=False), K(n_ops=n_ops, strict=False, delayed=True)]
+            K(n_ops=n_ops, strict=False), K(n_ops=n_ops, strict=False, delayed=True),
+            K(n_ops=n_ops, w=dict(cbw)), K(n_ops=n_ops, w=dict(cbw), delayed=True)]
 
 
 def run(chk):
@@ -172,8 +171,8 @@ def run(chk):
                        'no application event handlers are registered (connect/disconnect handlers are C04/C11)',
                        'callbacks are used as supported: addressed to one client by its own sid',
                        'ack ids are opaque to clients: deliveries are compared with ack ids hidden']
-    chk.prove()
-    n = 160 if chk.thorough else 22
+    chk.prove(targets=['Check/C07Check.v'])
+    n = 220 if chk.thorough else 36
     ks = knob_sets(chk.thorough)
     bad = batch(chk, 'c07', rng, n, ks)
     if bad and not any(code & 2 for _, code in bad):
